@@ -93,7 +93,7 @@ def gen_history(rf, nscripts, kinds, steps, overlap, sweep=None):
         s = cur_script[o]
         c = rf.wchoice([("loop", 10), ("drive", 2), ("sample", 1), ("progress", 1), ("is_complete", 2), ("output", 2),
                         ("oso", 1),
-                        ("observe", 1), ("finalize", 2), ("abandon", 1), ("resetup", 1),
+                        ("observe", 1), ("finalize", 2), ("abandon", 1), ("resetup", 1), ("fetch_resetup_fetch", 1),
                         ("overlap", 3 if overlap else 0)])
         if c == "loop":
             new_ep(o, s, [_loop_op(rf, steps[s])])
@@ -142,6 +142,16 @@ def gen_history(rf, nscripts, kinds, steps, overlap, sweep=None):
                 cur_script[o] = s2
                 nsetups += 1
                 faults.add("resetup_without_finalize")
+        elif c == "fetch_resetup_fetch":
+            # the output is fetched, the same object is set up again (another script when there is one) without a finalize
+            # in between, and the output is fetched again at once: same record count, other content
+            if nsetups < 6:
+                s2 = rf.choice([x for x in range(nscripts) if x != s] or [s])
+                new_ep(o, s, [["output"]])
+                new_ep(o, s2, [["setup"], ["output"], ["is_complete"]])
+                cur_script[o] = s2
+                nsetups += 1
+                faults.add("fetch_resetup_fetch")
         elif c == "overlap":
             # F9: another object is set up / operated / finalized while `o` is open
             o2 = rf.choice([x for x in range(3) if x != o])
